@@ -94,8 +94,9 @@ def solve_one(job):
     name, smt2 = job
     log = []
     total = 0.0
+    # portfolio, cheapest first: z3 briefly; z3 with E-matching only (most quantified obligations carry usable triggers); then z3 with the full budget
     try:
-        r, dt, model, reason = _z3_check(smt2, Z3_MS, 0)
+        r, dt, model, reason = _z3_check(smt2, min(Z3_MS, 2500), 0)
     except Exception as e:  # parse error etc: undecided, reported
         return dict(name=name, verdict="error", backend="z3", seconds=0.0, model="", log=[repr(e)[:300]])
     total += dt
@@ -104,6 +105,22 @@ def solve_one(job):
         return dict(name=name, verdict="discharged", backend="z3", seconds=total, model="", log=log)
     if r == "sat":
         return dict(name=name, verdict="refuted", backend="z3", seconds=total, model=model, log=log)
+    try:
+        r0, dt0, _m0, _ = _z3_check(smt2, min(Z3B_MS, 5000), 1)
+    except Exception:
+        r0, dt0 = "unknown", 0.0
+    total += dt0
+    log.append("z3-nombqi:%s:%.2fs" % (r0, dt0))
+    if r0 == "unsat":
+        return dict(name=name, verdict="discharged", backend="z3-nombqi", seconds=total, model="", log=log)
+    if Z3_MS > 2500:
+        r, dt, model, reason = _z3_check(smt2, Z3_MS, 0)
+        total += dt
+        log.append("z3:%s:%.2fs%s" % (r, dt, (":" + reason) if reason else ""))
+        if r == "unsat":
+            return dict(name=name, verdict="discharged", backend="z3", seconds=total, model="", log=log)
+        if r == "sat":
+            return dict(name=name, verdict="refuted", backend="z3", seconds=total, model=model, log=log)
     r2, dt2 = _cvc5_check(smt2, CVC5_MS)
     total += dt2
     log.append("cvc5:%s:%.2fs" % (r2, dt2))
